@@ -79,6 +79,7 @@ UNLINK_BODY = ("if(e==conn->send_queue_head)conn->send_queue_head=e->next;"
 
 FACTS = [
     # name, function, statement (whitespace-free)
+    ("send_lib_before_sm", "_send_raw", "if(owner==XMPP_QUEUE_STROPHE&&!conn->sm_state->sm_enabled)owner=XMPP_QUEUE_SM_STROPHE;"),
     ("send_counts", "_send_raw", "conn->send_queue_len++;if(owner==XMPP_QUEUE_USER)conn->send_queue_user_len++;"),
     ("send_links_tail", "_send_raw",
      "item->next=NULL;item->prev=conn->send_queue_tail;item->written=0;item->wip=0;item->userdata=userdata;item->owner=owner;"),
